@@ -252,6 +252,56 @@ def pmap(fn: Callable, items: list, procs: int | None = None, chunksize: int = 1
     return out
 
 
+class CaseTimeout(BaseException):
+    """a single enumerated case exceeded its time allowance (treated as a hang of the code under test)"""
+
+
+def with_timeout(fn: Callable, arg: Any, seconds: float) -> Any:
+    """Run fn(arg) in the main thread of this process under a SIGALRM watchdog; raises CaseTimeout."""
+    import signal
+
+    def handler(signum, frame):
+        raise CaseTimeout()
+
+    old = signal.signal(signal.SIGALRM, handler)
+    signal.setitimer(signal.ITIMER_REAL, seconds)
+    try:
+        return fn(arg)
+    finally:
+        signal.setitimer(signal.ITIMER_REAL, 0)
+        signal.signal(signal.SIGALRM, old)
+
+
+class InlinePool:
+    """Drop-in for concurrent.futures.ThreadPoolExecutor that runs everything synchronously in the caller
+    (used where the library only uses a pool for speed, so that a hang is interruptible and runs are deterministic)."""
+
+    def __init__(self, *a, **k):
+        pass
+
+    def __enter__(self):
+        return self
+
+    def __exit__(self, *a):
+        return False
+
+    def map(self, f, *its):
+        return [f(*args) for args in zip(*its)]
+
+    def submit(self, fn, *a, **k):
+        from concurrent.futures import Future
+
+        fut: Future = Future()
+        try:
+            fut.set_result(fn(*a, **k))
+        except Exception as e:  # noqa
+            fut.set_exception(e)
+        return fut
+
+    def shutdown(self, *a, **k):
+        pass
+
+
 def rotate(items: list, seed: int) -> list:
     """VERIF_SEED only rotates enumeration order; verdicts never depend on it."""
     if not items:
